@@ -132,25 +132,36 @@ def r4(p, rep):
     rep.rule("C07.R4", "implicit outputs chosen from a set are taken only when the choice is unique", "T-DOM (singleton guard + documented error)", floor=1)
     f0 = p.func("_parse_op", "adapter.einx_from_namedtensor")
     n = 0
-    for f in common.with_helpers(p, f0, depth=4):
+    # helpers of _parse_op and everything else in its module (rule objects in a table are called through the table)
+    scope = common.with_helpers(p, f0, depth=4)
+    scope += [g for g in p.funcs.values() if g.module is f0.module and g not in scope and isinstance(g.node, ast.FunctionDef)]
+    for f in scope:
+        sites = common.take_one_sites(f.node)
+        if not sites:
+            continue
         cfg = CFG(f.node)
-        for node in walk_no_nested(f.node):
-            if isinstance(node, ast.Call) and isinstance(node.func, ast.Attribute) and node.func.attr == "pop" and not node.args:
+        for node, recv, form in sites:
+            if True:
                 st = node
                 while st is not None and not isinstance(st, ast.stmt):
                     st = getattr(st, "_parent", None)
                 # an element is taken out of a *set* (an arbitrary one when there are several): the candidates
-                recv = node.func.value
-                if not isinstance(recv, ast.Name):
-                    continue
                 is_set = _is_set_expr(p, f, recv)
-                if not is_set or not isinstance(st, (ast.Assign, ast.Return)):
+                keyed = None
+                if not is_set and "values()" in form:
+                    # candidates kept in a dict: which inputs share an entry?
+                    ds = [a.value for a in walk_no_nested(f.node) if isinstance(a, ast.Assign) and any(isinstance(t, ast.Name) and t.id == recv.id for t in a.targets)]
+                    if len(ds) == 1 and isinstance(ds[0], ast.DictComp):
+                        keyed = ds[0]
+                if (not is_set and keyed is None) or not isinstance(st, (ast.Assign, ast.Return)):
                     continue
                 n += 1
-                coll = norm(node.func.value)
+                coll = norm(recv)
+                if keyed is not None and norm(keyed.key) != norm(keyed.value):
+                    rep.violation("C07.R4", f"{f0.qualname}:implicit-output:candidates-keyed", f"{f.module.rel}:{keyed.lineno}", f"the candidate outputs are kept in a dict keyed by `{norm(keyed.key)}`, not by the candidate itself: inputs with equal keys (the same axis names in a different order, 'a b, b a') share one entry, so len({coll}) == 1 although the choice is not unique - the last one silently wins instead of SemanticError")
                 facts = cfg.guards_of_ast(node)
                 ok = c16.singleton_guard(facts, coll) and common.len_bounds(facts, coll)[0] >= 1
-                rep.add("C07.R4", f"{f0.qualname}:implicit-output:pop()", f"{f.module.rel}:{node.lineno}", ok, f"`{coll}.pop()` only when len({coll}) == 1 (otherwise SemanticError)" if ok else f"the implicit output is popped from `{coll}` without a test that this very set has exactly one element: an ambiguous call (e.g. 'a b, b a') silently picks one input - which one depends on set order")
+                rep.add("C07.R4", f"{f0.qualname}:implicit-output:pop()", f"{f.module.rel}:{node.lineno}", ok, f"one element of `{coll}` ({form}) only when len({coll}) == 1 (otherwise SemanticError)" if ok else f"the implicit output is taken from `{coll}` ({form}) without a test that this very set has exactly one element: an ambiguous call (e.g. 'a b, b a') silently picks one input - which one depends on set order")
                 adds = [a for a in walk_no_nested(f.node) if isinstance(a, ast.Call) and norm(a.func) == f"{coll}.add"]
                 txt = " ".join(norm(x) for a in adds for x in [enclosing(a, ast.For)] if x is not None)
                 # the candidate set may also be built by a comprehension or by a helper function
@@ -164,7 +175,7 @@ def r4(p, rep):
                 sub = any(w in txt for w in ("issubset", "issuperset", "<=", ">="))
                 rep.add("C07.R4", f"{f0.qualname}:implicit-output:superset-rule", f"{f.module.rel}:{node.lineno}", sub, "candidates are the inputs whose axis names contain those of all other inputs" if sub else f"the candidates in `{coll}` are not selected by a subset test over the axis names of the other inputs")
     if n == 0:
-        raise AnalysisError("unrecognised idiom: no `<set>.pop().__deepcopy__()` implicit output reachable from _parse_op")
+        raise AnalysisError("unrecognised idiom: no element taken from a set of candidate outputs (pop() / next(iter()) / one-element unpacking) reachable from _parse_op")
     # the name sets the superset rule compares leave out exactly the axes of length 1 (documented: "excluding 1s")
     from sa.cfg import decompose
 
@@ -199,7 +210,8 @@ def r5(p, rep):
     g, n, names = preds[0]
     rep.ok("C07.R5", f"{f.qualname}:mark-predicate", f"{g.module.rel}:{n.lineno}", f"marks `{norm(n)}`")
     defs = [a for h in scope for a in walk_no_nested(h.node) if isinstance(a, ast.Assign) and norm(a.targets[0]) == norm(names)]
-    ok = bool(defs) and ".nodes()" in norm(defs[0].value) and ".name" in norm(defs[0].value) and "out" in norm(defs[0].value)
+    dtext = norm(common.expand_pure_calls(p, g.module, defs[0].value)) if defs else ""  # `_axes(expr)` -> `[.. for .. in expr.nodes() if ..]`
+    ok = bool(defs) and ".nodes()" in dtext and ".name" in dtext and "out" in dtext
     rep.add("C07.R5", f"{f.qualname}:axes_names_out", f.loc, ok, f"{norm(names)} = names of all axes of the output expression")
     # the marking code runs only under `mark_reduced_axes` and `not any(<a node of an input is a Brackets>)`: facts that
     # guard the marking predicate (through the lexical nesting of closures up to _parse_op), named booleans written out
@@ -251,10 +263,11 @@ def _is_set_expr(p, f, d, depth=0):
 def r6(p, rep):
     rep.rule("C07.R6", "keepdims is implemented by one rewrite of the description (brackets wrapped in parentheses)", "T-DER [S]", floor=1)
     m = p.module("adapter.einx_from_namedtensor")
+    mods = [m, p.func("_parse_op", "adapter.einx_from_namedtensor").module]  # the parsing code may have moved to a module of its own
     hits = []
     # the rewrite: a FlattenedAxis is created for a Brackets node, and this happens exactly under `keepdims`
     for f in p.funcs.values():
-        if f.module is not m:
+        if not any(f.module is x for x in mods):
             continue
         for n in common.walk_with_lambdas(f.node):
             if isinstance(n, ast.Call) and "FlattenedAxis" in norm(n.func):
@@ -264,7 +277,7 @@ def r6(p, rep):
                 while top.parent is not None:
                     top = top.parent
                 for h in p.funcs.values():
-                    if h.module is m and h is not top and top not in list(_parents_of(h)):
+                    if any(h.module is x for x in mods) and h is not top and top not in list(_parents_of(h)):
                         for x in walk_no_nested(h.node):
                             if isinstance(x, ast.Name) and x.id == top.name and isinstance(x.ctx, ast.Load):
                                 facts += common.lexical_facts(h, x)
@@ -286,7 +299,7 @@ def r6(p, rep):
                     r = resolve_callee(p, c, f.module)
                     if r and r[0] == "func" and any(isinstance(x, ast.Call) and isinstance(x.func, ast.Name) and x.func.id == "isinstance" and "Brackets" in norm(x) for x in ast.walk(r[1].node)):
                         ok = True
-        rep.add("C07.R6", f"{f.qualname}:keepdims-rewrite", f"{m.rel}:{n.lineno}", ok, "keepdims=True wraps each bracket into a flattened axis `([...])`" if ok else f"under keepdims a FlattenedAxis is created for something that is not a Brackets node (guards {texts[:4]})")
+        rep.add("C07.R6", f"{f.qualname}:keepdims-rewrite", f"{f.module.rel}:{n.lineno}", ok, "keepdims=True wraps each bracket into a flattened axis `([...])`" if ok else f"under keepdims a FlattenedAxis is created for something that is not a Brackets node (guards {texts[:4]})")
 
 
 def r7(p, rep):
